@@ -244,7 +244,8 @@ func (e *Edge) Equal(e2 *Edge) bool {
 // flatString returns a serialized representation of the edge as a string,
 // suitable for indexing or comparison of the contents of the current edge.
 func (e *Edge) flatString() string {
-	tos := e.To
+	tos := make([]string, len(e.To))
+	copy(tos, e.To)
 	sort.Strings(tos)
 	return e.From + ":" + e.Type.String() + ":" + strings.Join(tos, "+")
 }
